@@ -130,6 +130,8 @@ func main() {
 		if userns {
 			r.CloneFlags = unix.CLONE_NEWUSER
 		}
+		// traced launch without a filter: the launcher still waits for the outcome of execve
+		r.Ptrace = c["ptrace"] == true
 		var closers []func()
 		switch fault {
 		case "clone":
